@@ -187,6 +187,7 @@ def run(c, chk):
     chk.assumptions = ['bounded enumeration of item shapes (nesting/width in the evidence); token values are irrelevant to the skipper']
     model = pm.ParserModel(c)
     thorough = chk.tier == 'thorough'
+    flag_reaches_sections(c, chk)
     depth, width = (2, 2)
     # which states form the skipper: reachable from the unknown-name arm of state 0
     entry = None
@@ -414,3 +415,34 @@ def resolver_reports(c):
     if n == 0:
         return 'no flag-off not-found path found in the resolver'
     return True
+
+
+def flag_reaches_sections(c, chk):
+    """R12.6: the flag is a property of the context that every section inherits: a section takes the parent's flag
+    word when it is created, and a new context's flag word is final before its first sections are created"""
+    from .c01 import construct_before_use
+    chk.rule('R12.6', 'a section inherits the context flags (including ignore-unknown) at creation; a new context\'s flags are final before sections are created from it')
+    construct_before_use(c, chk, 'R12.6', only_fields={'flags'}, define_rule=False)
+    fn = c.need('cfg_setopt')
+    ex = sym.Explorer(c.modules, max_visits=2, mod_sets=c.mod_sets, max_paths=200000)
+    n = 0
+    bad = None
+    for p in ex.explore(fn):
+        if p.end != 'ret' or p.retval in (sym.C0, None):
+            continue
+        fresh = [e.res for e in p.events if e.kind == 'call' and e.name == 'calloc' and any(
+            x.kind == 'store' and x.addr[0] == 'fld' and x.addr[2] == 'cfg_t' and x.addr[1] == e.res for x in p.events)]
+        for obj in fresh:
+            n += 1
+            st = [x for x in p.events if x.kind == 'store' and x.addr == ('fld', obj, 'cfg_t', 'flags')]
+            whole = [x for x in st if sym.mentions(x.val, lambda v: v[0] == 'ld' and v[1] == ('fld', ('p', 'cfg'), 'cfg_t', 'flags'))
+                     and not sym.mentions(x.val, lambda v: v[0] == 'bin' and v[1] == 'and')]
+            if not whole:
+                bad = bad or (p, obj, st)
+    if bad:
+        p, obj, st = bad
+        chk.fail('R12.6', 'section-flags', c.where(st[0].ins if st else fn), 'cfg_setopt() creates a section whose flag word is not the parent context\'s flag word (%s): '
+                 'inside that section the ignore-unknown setting of the context is lost' % (sym.render(st[0].val) if st else 'never assigned'))
+    else:
+        chk.ok('R12.6', 'cfg_setopt: %d section-creating paths' % n, 'the new section\'s flags start as the whole flag word of the parent context', sample=True)
+    chk.floor('R12.6 section-creating paths', n, 2)
